@@ -59,6 +59,8 @@ pub struct RoomMutationWriteQuery {
 impl Writeable for RoomMutationWriteQuery {
     fn write(&mut self, conn: &rusqlite::Connection) -> std::result::Result<(), rusqlite::Error> {
         self.mutation_query.write(conn)?;
+        #[cfg(feature = "verif")]
+        crate::database::sqlite_database::verif_faults::stmt(conn, 4)?;
         for room_id in &self.room_list {
             RoomChangelog::log_room_definition(room_id, self.mutation_query.date, conn)?;
         }
@@ -83,6 +85,8 @@ pub struct RoomMutationStreamWriteQuery {
 impl Writeable for RoomMutationStreamWriteQuery {
     fn write(&mut self, conn: &rusqlite::Connection) -> std::result::Result<(), rusqlite::Error> {
         self.mutation_query.write(conn)?;
+        #[cfg(feature = "verif")]
+        crate::database::sqlite_database::verif_faults::stmt(conn, 5)?;
         for room_id in &self.room_list {
             RoomChangelog::log_room_definition(room_id, self.mutation_query.date, conn)?;
         }
@@ -106,6 +110,8 @@ pub struct RoomNodeWriteQuery {
 impl Writeable for RoomNodeWriteQuery {
     fn write(&mut self, conn: &rusqlite::Connection) -> std::result::Result<(), rusqlite::Error> {
         self.room.write(conn)?;
+        #[cfg(feature = "verif")]
+        crate::database::sqlite_database::verif_faults::stmt(conn, 6)?;
 
         RoomChangelog::log_room_definition(&self.room.node.id, self.room.last_modified, conn)?;
 
